@@ -173,6 +173,11 @@ func monitorVM(line string, rect image.Rectangle, cs []Call) (fails []Failure) {
 				if len(f) < 6 || f[0] != "D" {
 					return append(fails, Failure{"C04.path-drawn", line, fmt.Sprintf("path ending at call %d was not drawn (VM prescribes %s)", i, want)})
 				}
+				if len(f) > 6 && strings.HasPrefix(f[6], "sp=") {
+					// the paint is in the rectangle's own pixel coordinates: sampling it from another source point
+					// fills the path with a shifted paint
+					return append(fails, Failure{"C04.paint", line, fmt.Sprintf("path ending at call %d: the paint is sampled from source point %s, not from the origin of its pixel space", i, f[6][3:])})
+				}
 				got := f[5]
 				if strings.HasPrefix(want, "G") {
 					// compare shape, spread, count, stops (not the pixel-space matrix)
